@@ -286,7 +286,9 @@ class Ctx:
         self.violations = []          # (sig, replay_path, found)
         self.known_hits = []
         self.assumptions = []
-        self.workdir = os.path.join(ROOT, "work", prop)
+        # one scratch directory per run: concurrent runs of the same check (seed sweeps, seeded-change
+        # trials next to a clean run) must never read each other's generated Coq files
+        self.workdir = os.path.join(ROOT, "work", prop, "run%d" % os.getpid())
         os.makedirs(self.workdir, exist_ok=True)
         self.t0 = time.time()
         self.jobs = int(os.environ.get("VERIF_JOBS", "16"))
